@@ -78,7 +78,7 @@ func init() {
 				f := f
 				Register(&Scenario{
 					Name:  name("ack/%s/c%df%d", qk, c, f),
-					Props: []string{"C11", "C01", "C03", "C13", "C17"},
+					Props: []string{"C11", "C01", "C03", "C13", "C17", "C07", "C12"},
 					Mode:  "NB", Quick: 2, Thorough: 3, Shards: 8,
 					Body: func(h *H) {
 						h.Beh[2] = BPanic // a delivery whose worker function panics is acknowledged like any other: once, afterwards
